@@ -85,6 +85,7 @@ def job(args):
     jid, opts, base = args
     fp = use_repo()
     d = os.path.join(base, "p%d" % jid)
+    shutil.rmtree(d, ignore_errors=True)      # a re-run of this job (after a time-out) starts clean
     os.makedirs(d)
     out = {"jid": jid, "viol": [], "evals": 0}
     try:
